@@ -22,7 +22,8 @@ esac
 [ -n "$2" ] && pdir=$2 && mod=${2%%/*}
 out="$d/confirm.txt"; : > "$out"
 cp "$demo" "$wt/$pdir/zz_demo_test.go"
-run_demo() { (cd "$wt/$pdir" && timeout 300 go test -vet=off -count=1 -run "$(grep -o 'func Test[A-Za-z0-9_]*' zz_demo_test.go | sed 's/func //' | paste -sd'|')" . ) > "$1" 2>&1; }
+RACE=""; grep -qs -- "-race" "$d/README.md" && RACE="-race"
+run_demo() { (cd "$wt/$pdir" && timeout 600 go test $RACE -vet=off -count=1 -run "$(grep -o 'func Test[A-Za-z0-9_]*' zz_demo_test.go | sed 's/func //' | paste -sd'|')" . ) > "$1" 2>&1; }
 run_demo /tmp/cw/$name.$$.a; ra=$?
 echo "demo without change: rc=$ra" >> "$out"
 if ! git -C "$wt" apply --whitespace=nowarn "$d/patch.diff" 2>>"$out"; then echo "PATCH DOES NOT APPLY" >> "$out"; cat "$out"; exit 2; fi
@@ -38,6 +39,8 @@ for try in 1 2 3 4 5 6 7 8; do
      if ! grep -- '--- FAIL' /tmp/cw/$name.$$.s | grep -v 'TestValidFlags' | grep -q .; then rs=0; fi
   fi
   [ $rs = 0 ] && break
+  # load-sensitive tests of the repository itself (10-50 ms margins): retry
+  if grep -q -- '--- FAIL: TestRoundRobin\|--- FAIL: TestGCPMultiEndpoint' /tmp/cw/$name.$$.s; then sleep 2; continue; fi
   if grep -q 'gcp_multiendpoint_test.go:441\|Failed to setup\|already in use\|failed to listen\|connection refused\|FAIL.*test_grpc.*0.0[0-9][0-9]s' /tmp/cw/$name.$$.s; then sleep $((RANDOM % 5 + 1)); continue; fi
   break
 done
